@@ -1,7 +1,7 @@
 /- Driver for C06: compares the real qmail-remote blast() with `rblast` (pure encoder) and with `SmtpIO.oblast`
    (the same loop over the substdio model, run with the harness's read / write plans as scripts), and evaluates the
    property oracles on the implementation's output.
-   Input lines: `<plan> <in> <O|P|R|D|T> <wire> <nwrites> <smtpto.p> <buffered>`   (plan = <rplan>[/<wplan>], see Drv/SmtpPlan.lean) -/
+   Input lines: `<plan> <in> <O|P|R|D|T> <wire> <nwrites> <smtpto.p> <buffered>`   (plan = <rplan>[/<wplan>[/<ibuf>,<obuf>]], see Drv/SmtpPlan.lean) -/
 import Drv.Util
 import Drv.SmtpPlan
 import Nq.SmtpOut
@@ -28,25 +28,32 @@ def dotAtLineStart : Byte → Bytes → Bool
   | _, [] => false
   | prev, c :: rest => (prev == LF && c == DOT) || dotAtLineStart c rest
 
-def splitPlan (tok : String) : Option (Plan × Plan) :=
+/-- `<rplan>[/<wplan>[/<ibuf>,<obuf>]]` → read plan, write plan, sizes given to the two substdio -/
+def splitPlan (tok : String) : Option (Plan × Plan × Nat × Nat) :=
+  let full : Plan := { caps := #[some 0] }
   match tok.splitOn "/" with
-  | [r] => (parsePlan r).map (fun p => (p, { caps := #[some 0] }))
+  | [r] => (parsePlan r).map (fun p => (p, full, 1024, 1024))
   | [r, w] => match parsePlan r, parsePlan w with
-      | some a, some b => some (a, b)
+      | some a, some b => some (a, b, 1024, 1024)
       | _, _ => none
+  | [r, w, sz] => match parsePlan r, parsePlan w, sz.splitOn "," with
+      | some a, some b, [x, y] => match x.toNat?, y.toNat? with
+          | some i, some o => if 1 ≤ i && i ≤ 1024 && 1 ≤ o && o ≤ 1024 then some (a, b, i, o) else none
+          | _, _ => none
+      | _, _, _ => none
   | _ => none
 
 def handle (sigs : SigRef) (st : Stats) (line : String) : IO Stats := do
   match fields line with
   | [chunk, inh, status, outh, nwS, pS, bufh] =>
     match unhex inh, unhex outh, unhex bufh, splitPlan chunk with
-    | some m, some out, some buffered, some (rplan, wplan) =>
+    | some m, some out, some buffered, some (rplan, wplan, ibuf, obuf) =>
       let h := hashBytes m
       let fresh := !st.seen.contains h
       let nontriv := m.contains CR || dotAtLineStart LF m
       let mut st := { st with cases := st.cases + 1, seen := st.seen.insert h,
                               nontrivial := st.nontrivial + (if fresh && nontriv then 1 else 0) }
-      st := st.bump ("chunk" ++ rplan.cls ++ "/" ++ wplan.cls)
+      st := st.bump ("chunk" ++ rplan.cls ++ "/" ++ wplan.cls ++ (if ibuf == 1024 && obuf == 1024 then "" else "/smallbuf"))
       st := st.bump ("status" ++ status)
       let anyFail := rplan.hasFail || wplan.hasFail
       -- (1) the pure encoder
@@ -63,14 +70,15 @@ def handle (sigs : SigRef) (st : Stats) (line : String) : IO Stats := do
         st := { st with disagree := st.disagree + 1 }
       -- (2) the loop over substdio with the plans as read / write scripts: same outcome, same bytes taken by the socket,
       --     same bytes left in smtptobuf, same number of write() calls
-      -- (cost: `copyIn` appends to the buffered list, ~512 list steps per output byte; long messages are sampled 1 in 4)
-      let wcost := (out.length + buffered.length) * 512 + wplan.cost (out.length + buffered.length) 1024
-      if rplan.cost m.length 1024 > costBudget || wcost > costBudget || (wcost > 3000000 && h % 4 != 0) then
+      -- (cost: `copyIn` appends to the buffered list and `flush` to the ghost wire list; expensive cases are sampled 1 in 4)
+      let olen := out.length + buffered.length
+      let wcost := olen * (obuf / 2 + 8) + olen * olen / obuf      -- buffer append per put + ghost `out` append per flush
+      if rplan.cost m.length ibuf > costBudget || wcost > costBudget || (wcost > 3000000 && h % 4 != 0) then
         st := st.bump "chunked-model-skipped(cost)"
       else
         let rs := rplan.script (m.length + 4)
         let ws := wplan.script (out.length + buffered.length + 16)
-        let res := Nq.SmtpIO.oblast (Nq.SmtpIO.istart 1024 m rs) (Nq.SmtpIO.ostart 1024 ws)
+        let res := Nq.SmtpIO.oblast (Nq.SmtpIO.istart ibuf m rs) (Nq.SmtpIO.ostart obuf ws)
         let o' := res.ost
         let cls := match res with | .sent _ => "O" | .partialLine _ => "P" | .tempRead _ => "R" | .dropped _ => "D"
         let cagree := cls == status && o'.out == out && o'.buf == buffered && pS.toNat? == some o'.p &&
